@@ -204,6 +204,11 @@ def run(ctx):
         projects.append(("mutual", "pragma circom 2.0.0;\n"
                          "template A(n) { signal input x; signal output y; var t = n; if (n) { var t = 2; y <== x * t; } else { y <== x; } component b = B(n); }\n"
                          "template B(n) { signal input x; signal output y; var u = n; { var u = 3; y <== x * u; } component a = A(n); }\n", 2))
+        # a user identifier spelled like a name the desugaring invents (`<Template>_<line>_<offset>`; the file must not be reformatted,
+        # the offset is part of the name): declared once, so no shadowing (known finding F-C10-generated-names)
+        projects.append(("generated-name", "pragma circom 2.1.0;\n\ntemplate Sq() {\n    signal input in;\n    signal output out;\n    out <== in * in;\n}\n\n"
+                         "template T(n) {\n    signal input a;\n    signal output b;\n    b <== Sq()(a);\n    if (n > 0) {\n        var Sq_12_173 = n;\n"
+                         "        log(Sq_12_173);\n    }\n}\ncomponent main = T(1);\n", 0))
         reqs3, metas3 = [], []
         for j, (kind, text, nshadow) in enumerate(projects):
             p = wd.write("proj%d.circom" % j, text)
@@ -217,6 +222,39 @@ def run(ctx):
                 l1 += 1
                 ctx.violation("shadow-reports-project %s" % kind, {"stage": "L1 shadowing warnings displayed for every template of a project", "files": {"main.circom": text},
                                                                    "specified_count": nshadow, "displayed_count": got, "broken": None})
+    # ---- names only matter through scoping: two declarations in scopes that do not overlap may share a spelling or not — every other
+    #      finding of the definition (same report, same place) must be the same (audit C10 f1: a pass that remembers reported
+    #      variables by their spelling dropped the finding about the second declaration)
+    PATTERNS = [
+        "template T(n) { signal input in; signal output out; if (n == 1) { var %(A)s = in; } signal %(B)s; %(B)s <-- in; out <== in; }",
+        "template T(n) { signal input in; signal output out; { var %(A)s = 1; } { signal %(B)s; %(B)s <-- in * in; } out <== in; }",
+        "template T(n) { signal input in; signal output out; for (var i = 0; i < 2; i++) { var %(A)s = i; } signal %(B)s; out <== in; }",
+        "template T(n) { signal input in; signal output out; { var %(A)s = in; } { var %(B)s = in + 1; } out <== in; }",
+        "template T(n) { signal input in; signal output out; if (n) { var %(A)s = 2; out <== in * %(A)s; } else { signal %(B)s; %(B)s <-- in; out <== in; } }",
+        "function f(c) { if (c) { var %(A)s = 1; } else { var %(B)s = 2; } return c; }",
+        "function f(c) { { var %(A)s = c; } { var %(B)s = c; c = %(B)s + 1; } return c; }",
+        "template T(n) { signal input in; signal output out; { var %(A)s = n; } component %(B)s = U(); %(B)s.a <== in; out <== in; }",
+    ]
+    with vlib.Workdir("c10b") as wd2:
+        reqs4, metas4 = [], []
+        for j, pat in enumerate(PATTERNS):
+            for (a, b) in (("xx", "yy"), ("xx", "xx"), ("yy", "yy"), ("x_", "x_")):   # all of one length: positions stay comparable
+                text = "pragma circom 2.0.0;\ntemplate U() { signal input a; signal output b; b <== a; }\n" + pat % {"A": a, "B": b} + "\n"
+                p = wd2.write("pat%d_%s_%s.circom" % (j, a, b), text)
+                reqs4.append({"inputs": [p], "libs": [], "curve": "BN254"})
+                metas4.append((j, a, b, text))
+        base = {}
+        for (j, a, b, text), rep in zip(metas4, vlib.analyze(reqs4)):
+            key = collections.Counter((r["id"], tuple((l["start"], l["end"]) for l in r["primary"])) for r in vlib.reports_of(rep) if r["id"] not in ("CS0001",))
+            stats["spelling-independence runs"] += 1
+            if (a, b) == ("xx", "yy"):
+                base[j] = (key, text)
+            elif key != base[j][0]:
+                l1 += 1
+                ctx.violation("spelling-dependent-findings", {"stage": "L1 findings with distinct spellings vs the same spelling in non-overlapping scopes",
+                                                              "files": {"distinct.circom": base[j][1], "same.circom": text},
+                                                              "only_with_distinct_names": [list(k) for k in (base[j][0] - key)][:6],
+                                                              "only_with_the_same_name": [list(k) for k in (key - base[j][0])][:6], "broken": None})
     if not ok:
         ctx.violation("theorem " + ";".join(failing)[:200], {"broken": "theorem", "failing": failing}, no_input=True)
     cov = ctx.coverage
